@@ -589,23 +589,32 @@ def run_table(w, rows, sc, onset, count=True, version="8.3.0"):
 
 
 def run_dataset(w, strings, count=True):
+    half = len(strings) // 2
+    sc = make_sidecar(strings[:half], ["Label/#", "Weight/# foo"], defs=DEF_STRINGS[:2])
+    files = {}
+    for sub, chunk in (("sub-01", strings[half:half + half // 2]), ("sub-02", strings[half + half // 2:])):
+        lines = ["onset\tduration\tcond\tval0\tHED"]
+        for k, t in enumerate(chunk):
+            lines.append("%d.0\tn/a\tk%d\t%s\t%s" % (k, k % max(1, (half + 1) // 2), ["3", "x", "n/a"][k % 3],
+                                                     t.replace("\t", " ")))
+        files[sub] = "\n".join(lines) + "\n"
+    validate_dataset(w, {"entry": "dataset", "strings": strings}, sc, files, count, ("dataset", tuple(strings)))
+
+
+def validate_dataset(w, inp, sc, files, count, key):
+    """files: subject -> text of its events file; sc: the inherited sidecar at the dataset root"""
     from hed.tools.bids.bids_dataset import BidsDataset
     root = tempfile.mkdtemp(prefix="c12_")
-    inp = {"entry": "dataset", "strings": strings}
     try:
-        json.dump({"Name": "c12", "BIDSVersion": "1.8.0", "HEDVersion": "8.3.0"},
-                  open(os.path.join(root, "dataset_description.json"), "w"))
-        half = len(strings) // 2
-        sc = make_sidecar(strings[:half], ["Label/#", "Weight/# foo"], defs=DEF_STRINGS[:2])
-        json.dump(sc, open(os.path.join(root, "task-a_events.json"), "w"))
-        for sub, chunk in (("sub-01", strings[half:half + half // 2]), ("sub-02", strings[half + half // 2:])):
+        with open(os.path.join(root, "dataset_description.json"), "w") as f:
+            json.dump({"Name": "c12", "BIDSVersion": "1.8.0", "HEDVersion": "8.3.0"}, f)
+        with open(os.path.join(root, "task-a_events.json"), "w") as f:
+            json.dump(sc, f)
+        for sub, text in files.items():
             d = os.path.join(root, sub, "eeg")
             os.makedirs(d)
             with open(os.path.join(d, "%s_task-a_events.tsv" % sub), "w", encoding="utf-8") as f:
-                f.write("onset\tduration\tcond\tval0\tHED\n")
-                for k, t in enumerate(chunk):
-                    f.write("%d.0\tn/a\tk%d\t%s\t%s\n" % (k, k % max(1, (half + 1) // 2), ["3", "x", "n/a"][k % 3],
-                                                        t.replace("\t", " ")))
+                f.write(text)
         res = {}
         try:
             for warn in (True, False):
@@ -614,15 +623,86 @@ def run_dataset(w, strings, count=True):
             _raised.append({"input": inp, "exception": repr(e)[:160]})
             return
         if count:
-            w.case(key=("dataset", tuple(strings)), nontrivial=bool(res[True]),
-                   sample={"entry": "dataset", "issues": len(res[True])})
+            w.case(key=key, nontrivial=bool(res[True]), sample={"entry": "dataset", "issues": len(res[True])})
         for warn in (True, False):
             for i in res[warn]:
                 check_issue(w, i, dict(inp, warnings=warn), "dataset")
+            check_returned_order(w, res[warn], dict(inp, warnings=warn), "dataset")
         check_lists(w, res[True], res[False], inp)
         _pool_for_sort.extend(res[True])
     finally:
         shutil.rmtree(root, ignore_errors=True)
+
+
+# ------------------------------------------------------------------------------------------------------------------
+# order of the returned list: columns / rows whose faults are found at different stages of a validation
+# ------------------------------------------------------------------------------------------------------------------
+# one sidecar column per fault kind; category keys are listed in an order that is NOT their sorted order
+ORDER_KINDS = {
+    "tag_error": {"HED": {"k2": "Redx", "k1": "Blue, Item/Object/Blue"}},               # per-string errors
+    "warning": {"HED": {"k2": "Blue/Apple", "k1": "Green"}},                            # per-string warning only
+    "value_error": {"HED": "Label/#, Redx"},                                            # value column
+    "pound": {"HED": {"k2": "Label/#", "k1": "Red"}},                                   # placeholder count of a category
+    "full_string": {"HED": {"k2": "Red, Red", "k1": "(Onset, Blue)"}},                  # found by the whole-string pass
+    "def_mix": {"HED": {"k2": "(Definition/Abc, (Red))", "k1": "Green"}},               # column-level: definition misplaced
+    "def_mix_two": {"HED": {"k3": "Green", "k2": "(Definition/Pqr, (Red))", "k1": "(Definition/Xyz/#, (Label/#))"}},
+    "def_fault": {"HED": {"k2": "(Definition/Bad, (Red), Blue)", "k1": "(Definition/Good, (Red))"}},  # found when definitions are collected
+    "ok": {"HED": {"k1": "Red"}},
+}
+# structure / reference faults (the sidecar is answered with these alone)
+ORDER_STRUCT_KINDS = {
+    "hed_key": {"Levels": {"a": {"HED": "Red"}}},                                       # misplaced HED key
+    "blank": {"HED": {"k2": "", "k1": "Red"}},
+    "bad_type": {"HED": {"k1": 3}},
+    "bad_ref": {"HED": {"k2": "{zzz}, Red", "k1": "Blue"}},
+}
+ORDER_NAMES = ("alpha", "beta", "gamma")
+
+
+def order_sidecars(quick):
+    """(kinds in file order, names in file order, sidecar): every permutation of which of alpha/beta/gamma has which fault"""
+    import itertools
+    faulty = [k for k in ORDER_KINDS if k != "ok"]
+    if quick:
+        triples = [pair + ("ok",) for pair in itertools.combinations(faulty, 2)]
+        triples = [t[n % 3:] + t[:n % 3] for n, t in enumerate(triples)]      # the clean column first / second / last
+    else:
+        triples = list(itertools.permutations(list(ORDER_KINDS), 3))
+    struct = list(ORDER_STRUCT_KINDS)
+    pairs = [(a, b) for a in struct for b in struct]
+    triples += [(a, b, "tag_error") if n % 2 else ("tag_error", a, b) for n, (a, b) in enumerate(pairs)]
+    allk = dict(ORDER_KINDS, **ORDER_STRUCT_KINDS)
+    for kinds in triples:
+        for names in itertools.permutations(ORDER_NAMES):
+            yield kinds, names, {n: copy.deepcopy(allk[k]) for n, k in zip(names, kinds)}
+
+
+ORDER_TABLE_SIDECAR = {"cond": {"HED": {"a": "Red", "c": "Redx", "w": "Blue/Apple"}},
+                       "defs": {"HED": {"d": "(Definition/Abc, (Red))"}}}
+# per-row fault kinds: (value of the categorical column, HED column); 'temporal'/'inset' are found by the pass over the
+# whole file that follows the row-by-row pass
+ORDER_ROW_KINDS = {"ok": ("a", "Green"), "tag_error": ("a", "Redx"), "warning": ("a", "Blue/Pear"),
+                   "temporal": ("a", "(Def/Abc, Offset)"), "cat_error": ("c", "Green"), "inset": ("a", "(Def/Abc, Inset)"),
+                   "repeated": ("a", "Red")}
+
+
+def order_tables(quick):
+    """(row kinds, rows, onsets): every arrangement of the fault kinds over the rows of a 4-row table"""
+    import itertools
+    base = [("temporal", "tag_error", "warning", "ok"), ("inset", "cat_error", "repeated", "temporal")]
+    if not quick:
+        base += [("temporal", "temporal", "tag_error", "cat_error"), ("inset", "warning", "warning", "repeated"),
+                 ("temporal", "inset", "ok", "tag_error")]
+    seen = set()
+    for b in base:
+        for kinds in itertools.permutations(b):
+            if kinds in seen:
+                continue
+            seen.add(kinds)
+            rows = {"cond": [ORDER_ROW_KINDS[k][0] for k in kinds], "HED": [ORDER_ROW_KINDS[k][1] for k in kinds]}
+            n = len(seen)
+            onsets = ["0.0", "1.0", "2.0", "3.0"] if n % 3 else ["0.0", "2.0", "1.0", "3.0"]
+            yield kinds, rows, onsets
 
 
 SIDECAR_EXTRAS = [
